@@ -1,7 +1,10 @@
 package c10
 
 import (
+	"bufio"
+	"encoding/json"
 	"errors"
+	"os"
 	"fmt"
 	"sync"
 	"io"
@@ -28,6 +31,9 @@ func init() {
 			want[a] = true
 		}
 		all := len(want) == 0
+		if want["replay"] {
+			return replay(c, f, p)
+		}
 		if all || want["client"] {
 			cases := buildClientCases(c.Tier)
 			runParallel(len(cases), 14, func(i int) { f.runClient(cases[i]) })
@@ -79,4 +85,76 @@ func init() {
 		}
 		return nil
 	})
+}
+
+// replay re-runs cases given as JSON lines on stdin (the "cases" of a replay file), by kind.
+func replay(c *core.Ctx, f *fakeTSA, p *pki) error {
+	sc := bufio.NewScanner(os.Stdin)
+	sc.Buffer(make([]byte, 1<<20), 1<<26)
+	var senv *signEnv
+	var venv *verifyEnv
+	for sc.Scan() {
+		line := sc.Bytes()
+		var k struct {
+			Kind string `json:"kind"`
+		}
+		if err := json.Unmarshal(line, &k); err != nil {
+			return err
+		}
+		switch k.Kind {
+		case "client":
+			in := &clientCase{}
+			if err := json.Unmarshal(line, in); err != nil {
+				return err
+			}
+			cs := &clientCase{ID: in.ID, Kind: "client", Style: in.Style, Seq: in.Seq, CtxMS: in.CtxMS, EncDig: in.EncDig, Attrs: in.Attrs}
+			f.runClient(cs)
+			c.Emit(cs)
+		case "sign":
+			in := &signCase{}
+			if err := json.Unmarshal(line, in); err != nil {
+				return err
+			}
+			if senv == nil {
+				var err error
+				if senv, err = f.newSignEnv(filepath.Join(c.Scratch, "sign")); err != nil {
+					return err
+				}
+			}
+			cs := &signCase{ID: in.ID, Kind: "sign", Type: in.Type, File: in.File, Style: in.Style, Pool: in.Pool, Seq: in.Seq, Attrs: in.Attrs}
+			senv.run(cs)
+			c.Emit(cs)
+		case "verify":
+			in := &verifyCase{}
+			if err := json.Unmarshal(line, in); err != nil {
+				return err
+			}
+			if venv == nil {
+				var err error
+				if venv, err = p.newVerifyEnv(); err != nil {
+					return err
+				}
+			}
+			cs := &verifyCase{ID: in.ID, Kind: "verify", Form: in.Form, Now: venv.now.Unix(), T: in.T, Leaf: in.Leaf, Token: in.Token, TSA: in.TSA,
+				TSATrusted: in.TSATrusted, TSAEKU: in.TSAEKU, TokSigOK: in.TokSigOK, TokImprint: in.TokImprint, TokAlgOK: in.TokAlgOK, TokContent: in.TokContent}
+			if err := venv.run(cs, 9000+in.ID%1000); err != nil {
+				return err
+			}
+			c.Emit(cs)
+		case "cache":
+			in := &cacheCase{}
+			if err := json.Unmarshal(line, in); err != nil {
+				return err
+			}
+			cs := &cacheCase{ID: in.ID, Kind: "cache", Name: in.Name, Poison: in.Poison}
+			for _, st := range in.Steps {
+				cs.Steps = append(cs.Steps, cacheStep{Seq: st.Seq})
+			}
+			if err := f.runCache(cs); err != nil {
+				return err
+			}
+			c.Emit(cs)
+		}
+	}
+	return sc.Err()
 }
